@@ -57,9 +57,9 @@ var notCovered = map[string][]string{
 	"C01": {"that setString produced the value denoted by the text (string reasoning, see C14); Precision 0 outside [MinExponent, MaxExponent] (the property gives no rule)"},
 	"C02": {"Sqrt's 'Inexact iff the root is not exactly representable' (accuracy of the iteration, see C11); exact values of Rounded/Clamped (checked only through implications, as the property prescribes)"},
 	"C03": {"trap independence of the composite functions rests on the nil-error induction meta-argument (DESIGN 8.6)"},
-	"C04": {"that an error-free iteration of Ln's power series makes progress (error exit proved only); 'slow is not hang'; indexing and slicing of strings (their lengths are not modelled) in the parser; fmt.Formatter plumbing (Format), Scan/Value, the text produced; functions without contract are listed in DESIGN.md section 14"},
+	"C04": {"that an error-free iteration of Ln's power series makes progress (error exit proved only); 'slow is not hang'; indexing and slicing of strings (their lengths are not modelled) in the parser; Decimal.Format (fmt.Formatter plumbing), Decimal/NullDecimal Scan and Value, the text produced; functions without contract are listed in DESIGN.md section 14"},
 	"C07": {"Sqrt/Cbrt/Exp/Ln/Pow inherit 'fits' from the contract of their final round call"},
-	"C16": {"text and byte results (String/Text/Append/Format/Marshal*/Gob*/Scan/SetString/Bytes/SetBytes/Bits/SetBits/Size), ModSqrt, ProbablyPrime, Rand have no contract; And/Or/Xor/Not/Lsh/Sqrt/MulRange/Binomial/SetBit/GCD/ModInverse are proved against uninterpreted math/big operation functions (wrapper plumbing, aliasing, representation), not against a bit-level definition; the unsafe bridge (inner/updateInner) and math/big are assumed contracts, the bridge exercised by the bounded differential check (incl. negative zeros handed back by math/big)"},
+	"C16": {"text and byte results (String/Text/Append/Format/Marshal*/GobEncode/Bytes/FillBytes/Bits/Size) have no-panic and representation contracts only - the bytes produced are math/big's and are compared with math/big only by the bounded differential check; SetBits, SetBytes, Rand, the decoders, ModSqrt, ProbablyPrime are specified up to sign/range/representation, not value; And/Or/Xor/Not/Lsh/Sqrt/MulRange/Binomial/SetBit/GCD/ModInverse are proved against uninterpreted math/big operation functions (wrapper plumbing, aliasing, representation), not against a bit-level definition; the unsafe bridge (inner/updateInner) and math/big are assumed contracts, the bridge exercised by the bounded differential check (incl. negative zeros handed back by math/big)"},
 	"C17": {"Float64/SetFloat64 (strconv and floating point)"},
 	"C18": {"schedules are not explored: data-race freedom follows from the proved sequential frame conditions by the stated meta-theorem; races inside math/big or the runtime are out of reach"},
 	"C19": {"NumDigits above 128 bits relies on one assumed lemma about the float estimate (bounded stand-in)"},
@@ -123,16 +123,66 @@ func cmdCheck(args []string) {
 	unsupported := map[string][]string{}
 	var noTerm []string
 	var skippedClauses []string
+	// Dependency closure. Verification is modular: a function is checked against the contracts of its callees, so
+	// what is proved about the functions tagged with the property holds only if every callee (transitively) meets
+	// its own contract. Roots are the functions with an obligation tagged with the property; every function reached
+	// from a root by at least one call is a dependency and contributes ALL of its obligations, whatever their tags.
+	byName := map[string]*FuncVC{}
+	for _, vc := range vcs {
+		byName[vc.name] = vc
+	}
+	deps := map[string]bool{}
+	var work []string
+	for _, vc := range vcs {
+		for _, o := range vc.obls {
+			if hasTag(o.Tags, prop) && o.Class != "V" {
+				work = append(work, vc.name)
+				break
+			}
+		}
+	}
+	seen := map[string]bool{}
+	for len(work) > 0 {
+		n := work[len(work)-1]
+		work = work[:len(work)-1]
+		if seen[n] {
+			continue
+		}
+		seen[n] = true
+		if vc := byName[n]; vc != nil {
+			for c := range vc.contractedUsed {
+				if byName[c] != nil {
+					deps[c] = true
+					work = append(work, c)
+				}
+			}
+		}
+	}
+	lemmasNeeded := map[string]bool{}
+	var closureOnly []string
 	for _, vc := range vcs {
 		sel := false
 		for _, o := range vc.obls {
-			if hasTag(o.Tags, prop) && o.Class != "V" {
+			if o.Class == "V" {
+				continue
+			}
+			if hasTag(o.Tags, prop) {
+				obls = append(obls, o)
+				sel = true
+			} else if deps[vc.name] {
+				o.Tags = append(append([]string{}, o.Tags...), prop)
 				obls = append(obls, o)
 				sel = true
 			}
 		}
 		if !sel {
 			continue
+		}
+		if deps[vc.name] && !hasTag(vc.fc.Props, prop) {
+			closureOnly = append(closureOnly, vc.name)
+		}
+		for l := range vc.lemmasUsed {
+			lemmasNeeded[l] = true
 		}
 		for _, o := range vc.obls {
 			if o.Class == "V" {
@@ -165,7 +215,8 @@ func cmdCheck(args []string) {
 	}
 	sort.Strings(noTerm)
 	// lemma obligations (class G) tagged with the property
-	lemmaObls := lemmaObligations(W, prop)
+	sort.Strings(closureOnly)
+	lemmaObls := lemmaObligations(W, prop, lemmasNeeded)
 	obls = append(obls, lemmaObls...)
 
 	timeout := 20 * time.Second
@@ -327,20 +378,21 @@ func cmdCheck(args []string) {
 		"seed":        seed,
 		"level":       "proof",
 		"coverage": map[string]interface{}{
-			"obligations":              len(obls),
-			"discharged":               discharged,
-			"checker_cmd":              "bin/apdvc check " + prop + " --tier " + *tier,
-			"trusted_base":             tb,
-			"samples":                  samples,
-			"functions_under_contract": fl,
-			"per_backend":              perBackend,
-			"solver_time_s":            solverTime,
-			"vacuity_guards":           vacuity,
-			"lemma_obligations":        len(lemmaObls),
-			"not_covered":              notCovered[prop],
-			"known_findings":           knownHit,
-			"generator_problems":       problems,
-			"obligations_by_class":     byClass,
+			"obligations":                          len(obls),
+			"discharged":                           discharged,
+			"checker_cmd":                          "bin/apdvc check " + prop + " --tier " + *tier,
+			"trusted_base":                         tb,
+			"samples":                              samples,
+			"functions_under_contract":             fl,
+			"functions_in_dependency_closure_only": closureOnly,
+			"per_backend":                          perBackend,
+			"solver_time_s":                        solverTime,
+			"vacuity_guards":                       vacuity,
+			"lemma_obligations":                    len(lemmaObls),
+			"not_covered":                          notCovered[prop],
+			"known_findings":                       knownHit,
+			"generator_problems":                   problems,
+			"obligations_by_class":                 byClass,
 			"clauses_naming_locals_not_checked_at_early_returns": skippedClauses,
 			"loops_without_termination_obligation":               noTerm,
 			"bounded_standins":                                   bounded,
@@ -384,10 +436,31 @@ func cmdCheck(args []string) {
 }
 
 // lemmaObligations proves the (non-axiom) lemmas tagged with prop: parameters become fresh constants.
-func lemmaObligations(W *World, prop string) []*Obligation {
+// Lemmas instantiated by the functions of the check (needed), and the lemmas those are proved from, are included
+// whatever their tags.
+func lemmaObligations(W *World, prop string, needed map[string]bool) []*Obligation {
 	var out []*Obligation
+	need := map[string]bool{}
+	var visit func(name string)
+	visit = func(name string) {
+		lm := W.spec.lemma(name)
+		if lm == nil || need[lm.Name] {
+			return
+		}
+		need[lm.Name] = true
+		for _, u := range lm.Using {
+			if call, ok := u.(*ECall); ok {
+				visit(call.Fn)
+			}
+		}
+	}
 	for _, lm := range W.spec.Lemmas {
-		if lm.Assumed || (prop != "" && !hasTag(lm.Tags, prop)) {
+		if needed[lm.Name] || (prop != "" && hasTag(lm.Tags, prop)) {
+			visit(lm.Name)
+		}
+	}
+	for _, lm := range W.spec.Lemmas {
+		if lm.Assumed || (prop != "" && !need[lm.Name]) {
 			continue
 		}
 		g := newGen(W, false)
